@@ -196,6 +196,20 @@ def check(ctx):
                 ctx.ok(poll, s, "extra m - 1 under accelerate_mesh and iter > steps and stall < tol_fun")
             else:
                 ctx.fail(poll, s, f"an additional decrement of the mesh exponent under {inner[-3:] or 'no guard'} (only 'accelerate_mesh and iter > accelerate_mesh_steps and stalled' is allowed, in the failure branch)", construct=f"extra mesh -1 under {' & '.join(sorted(inner))[:80]}")
+        # "stalling" is judged on the incumbent as it is when the poll ends: the statistic compares a history base with the
+        # *current* estimate self.fval / self.fsd (a copy taken before the evaluations of this poll is stale once a point
+        # was accepted)
+        for t_, v_, s_, k_ in iter_stores(poll.node):
+            if self_attr_of(t_) == "f_q_historic_improvement" and isinstance(v_, ast.Call) and len(v_.args) >= 4:
+                from .common import attr_stable_between, enclosing_stmt
+
+                for a_, want_ in ((v_.args[1], "fval"), (v_.args[3], "fsd")):
+                    cur = canon(a_)
+                    if isinstance(a_, ast.Name):
+                        dd_ = reaching_assignments(prog, poll, a_.id, v_)
+                        if len(dd_) == 1 and canon(dd_[0]) == f"self.{want_}":
+                            cur = f"self.{want_}" if attr_stable_between(prog, poll, want_, enclosing_stmt(prog, dd_[0]), v_) else f"a copy of self.{want_} taken before the incumbent could move in this poll"
+                    ctx.check(cur == f"self.{want_}", poll, s_, f"stall statistic uses the current self.{want_}", f"the stall statistic that decides the extra mesh decrement is computed from {cur}, not from the incumbent's current self.{want_}", construct=f"stall statistic argument {canon(a_)}")
         tn = cfg.head_of(flag)
         ctx.check(cfg.postdominates(tn.id, cfg.entry.id) and not cfg.in_loop(tn.id), poll, flag, "every poll passes the success/failure update exactly once", "the mesh update is skipped on some path through the poll step or sits in a loop", construct="mesh update placement")
         # definitions of the success flag
